@@ -164,6 +164,9 @@ def structures(ctx):
     # a chain that starts with an aspartate (N+ and the carboxylate are covalently coupled), scored with the optional
     # parameter settings of that coupling (common charge centre, shared determinants): names ending in [tag] get -p
     het.append(("frag-3SGB-I0+14 [ccc+shared+keep]", C.join(C.chain_lines("3SGB", "I", 0, 14) + [C.TER])))
+    # every atom protonated (names ending in {options}): the extra hydrogens are rotamers chosen in the frame of the
+    # structure, the heavy-atom quantities (clause a) do not depend on them
+    het.append(("frag-1HPX-A0+45 {--protonate-all}", C.join(C.chain_lines("1HPX", "A", 0, 45) + [C.TER])))
     if ctx.thorough():
         het.append(("3SGB-subset [ccc]", C.test_pdb_text("3SGB-subset")))
         prot += [("3SGB", C.test_pdb_text("3SGB")), ("1FTJ-protein", protein_only(C.test_pdb_text("1FTJ-Chain-A")))]
@@ -177,6 +180,8 @@ def opts_for(name):
     if name.endswith("]") and "[" in name:
         tag = name[name.rindex("[") + 1:-1]
         return ["-q", "-p", c02.param_file(c02.PARAMS[tag][0], tag)]
+    if name.endswith("}") and "{" in name:
+        return ["-q"] + name[name.rindex("{") + 1:-1].split()
     return ["-q"]
 
 
@@ -219,7 +224,7 @@ def run(ctx):
             continue
         is_prot = (name, text) in prot
         # all 24 rotations for the first two amino-acid structures; a rotating third of them for the special-purpose ones
-        nrot = nper["a"] if not is_prot else (nper["c"] if (ctx.thorough() or [x[0] for x in prot].index(name) < 2) else 8)
+        nrot = nper["a"] if not is_prot else (nper["c"] if (ctx.thorough() or [x[0] for x in prot].index(name) < 2 or "-along-" in name) else 8)
         for m in pick(nrot, si + ctx.seed):
             t = translation_for(text, m["p"], m["s"], m["t"])
             mt = move_text(text, m["p"], m["s"], t)
